@@ -32,7 +32,10 @@ type Cfg struct {
 	// Queue (scripted scenario): the warm-up rule queues (Throttling, QueueMs) instead of rejecting. One caller asks
 	// for the next token as soon as the previous Entry has returned, waits included (Sleep at the clock seam moves
 	// the clock), for 2*period+6 s: in the last second the rule passes most of its full rate.
-	Queue   bool   `json:"queue,omitempty"`
+	Queue bool `json:"queue,omitempty"`
+	// Huge (scripted scenario): a practically unlimited threshold (up to MaxInt64 and beyond). Ten single-token
+	// requests per second are far below threshold/coldFactor: every one of them passes.
+	Huge    bool   `json:"huge,omitempty"`
 	QueueMs uint32 `json:"queue_ms,omitempty"`
 	// memory adaptive
 	LowT    int64 `json:"low_t,omitempty"`
@@ -74,6 +77,10 @@ func (P) Gen(rng *sim.Rng, tier string) *harness.Case {
 		cfg = Cfg{Origin: cfg.Origin, Queue: true, QueueMs: []uint32{100, 500, 2000}[rng.Intn(3)], Interval: iv, T: rate * float64(per) / 1000,
 			Period: uint32(rng.Range(2, 6)), Cold: uint32([]int{0, 2, 3, 5}[rng.Intn(4)])}
 		return &harness.Case{Cfg: harness.MustJSON(cfg), Callers: [][]harness.Op{{{K: "queue"}}}}
+	}
+	if rng.Chance(0.02) {
+		cfg = Cfg{Origin: cfg.Origin, Huge: true, T: []float64{1e15, 4e18, 9223372036854775807, 1e19, 1e300}[rng.Intn(5)], Period: uint32([]int{1, 10, 60}[rng.Intn(3)]), Cold: uint32([]int{0, 2, 3}[rng.Intn(3)])}
+		return &harness.Case{Cfg: harness.MustJSON(cfg), Callers: [][]harness.Op{{{K: "huge"}}}}
 	}
 	var ops []harness.Op
 	if cfg.Memory {
@@ -198,6 +205,10 @@ func (P) Exec(c *harness.Case) *harness.Outcome {
 	}
 	if cfg.Queue {
 		execQueue(o, &cfg, clk)
+		return o
+	}
+	if cfg.Huge {
+		execHuge(o, &cfg, clk)
 		return o
 	}
 	if !harness.Call(o, "C11.panic", 0, func() {
@@ -534,5 +545,41 @@ func execQueue(o *harness.Outcome, cfg *Cfg, clk *sim.Clock) {
 	last := perSecond[2*cfg.Period+4]
 	if float64(last) < 0.8*perSec-1 {
 		o.Fail("C11.not-warmed-up", 0, "warm-up rule that queues (threshold %v per %d ms = %.0f tokens/s, period %d s, cold factor %d, max queueing %d ms) under one caller that asks for the next token as soon as the last Entry returned: second %d of the demand passed %d tokens, the full rate is %.0f (passed per second: %v)", cfg.T, iv, perSec, cfg.Period, cfg.Cold, cfg.QueueMs, 2*cfg.Period+4, last, perSec, perSecond)
+	}
+}
+
+// execHuge: see Cfg.Huge.
+func execHuge(o *harness.Outcome, cfg *Cfg, clk *sim.Clock) {
+	if cfg.T < 1e9 || cfg.Period > 100 {
+		return
+	}
+	if !harness.Call(o, "C11.panic", 0, func() {
+		_, err := flow.LoadRules([]*flow.Rule{{Resource: "res-0", TokenCalculateStrategy: flow.WarmUp, ControlBehavior: flow.Reject,
+			Threshold: cfg.T, WarmUpPeriodSec: cfg.Period, WarmUpColdFactor: cfg.Cold}})
+		if err != nil {
+			o.Fail("C11.load-error", 0, "%v", err)
+		}
+	}) || o.Failed() {
+		return
+	}
+	o.Nontrivial = true
+	o.Probe("practically_unlimited_threshold")
+	for sec := 0; sec < 30 && !o.Failed(); sec++ {
+		passed := 0
+		for i := 0; i < 10; i++ {
+			if request(o, 0, 1) {
+				passed++
+			}
+			clk.AdvanceMs(100)
+			o.SimMs += 100
+		}
+		if eff, ok := effective(o, 0, 1); ok && (math.IsNaN(eff) || math.IsInf(eff, 0) || eff < 0 || eff > cfg.T) {
+			o.Fail("C11.threshold-envelope", 0, "warm-up rule with threshold %v (period %d s, cold factor %d): effective threshold %v in second %d", cfg.T, cfg.Period, cfg.Cold, eff, sec)
+			return
+		}
+		if passed != 10 {
+			o.Fail("C11.starved", 0, "warm-up rule with a practically unlimited threshold (%v, period %d s, cold factor %d): in second %d of a demand of 10 single-token requests per second only %d passed; even the cold rate threshold/coldFactor is far above the demand", cfg.T, cfg.Period, cfg.Cold, sec, passed)
+			return
+		}
 	}
 }
